@@ -14,7 +14,7 @@ LEVEL_TEXT = ("Static structural proof of necessary conditions: (R5.1) each publ
               "element names, MediaWiki section markers, TSV row shapes/columns, escape pairs and the '-#' suffix "
               "agree between writer and reader; (R5.5) every attribute-emission loop consults the attribute filter. "
               "Equality after reload, cross-format agreement of contents and library/unmerged selection are NOT decided.")
-LEVEL_EXTRA = "Added after the seeded evaluation: (R5.4) also the escape context of each writer/reader pair; (R5.6) no stale per-entry state in the writers' traversal loops (two frozen exceptions); (R5.7) every TSV read of the loaders takes cells verbatim as text. (R5.8) the writers split a multi-valued attribute at the separator the readers join it with."
+LEVEL_EXTRA = "Added after the seeded evaluation: (R5.4) also the escape context of each writer/reader pair; (R5.6) no stale per-entry state in the writers' traversal loops (two frozen exceptions); (R5.7) every TSV read of the loaders takes cells verbatim as text. (R5.8) the writers split a multi-valued attribute at the separator the readers join it with. (R5.9) a parameter is handed on to every repository callee that takes a parameter of the same name (11 frozen exceptions package-wide)."
 
 SERIALIZERS = ["get_as_mediawiki_string", "get_as_xml_string", "get_as_dataframes",
                "save_as_mediawiki", "save_as_xml", "save_as_dataframes"]
@@ -471,3 +471,8 @@ def run(ctx):
                           "are written as one (`<value>a,b</value>`), which an independent reader does not list as the original values"
                           % (c.args[0].value, sep), desc="%s splits attribute values at %r" % (f.short, sep))
     ctx.floor("R5.8", "attribute-value splits in the writers", n_split, 3)
+
+    # ---------------- R5.9: parameters are handed on to same-named parameters of repository callees
+    from sa.forward import check_forwarding
+    nfw = check_forwarding(ctx, "R5.9", [f for f in prog.functions.values() if f.module.name.startswith(('hed.schema.schema_io',))], 'e.g. save_merged, the schema to merge into')
+    ctx.floor("R5.9", "same-named parameter sites", nfw, 1)
